@@ -13,53 +13,55 @@ Theorem cache_roundtrip : forall lay e c,
 Proof. exact cache_roundtrip_proof. Qed.
 Print Assumptions cache_roundtrip.
 
-(* at every crash point k of a store, every path other than the target and the staging file
+(* The store is the system-call list store_ops: mkdirs; create staging file; the flushes [chunks]
+   of the buffered text (any schedule; concat chunks is the text); chown; chmod; rename.
+   At every crash point k of a store, every path other than the target and the staging file
    is untouched (or is a directory the store created), and the target holds its old node or
    the complete new file *)
-Theorem store_frame : forall s loc pid gid cpv content k,
+Theorem store_frame : forall s loc pid gid cpv chunks k,
   cpv <> [] ->
   let tmp := tmp_path loc pid cpv in
   let target := target_path loc cpv in
-  let ops := store_ops s loc pid gid cpv content in
+  let ops := store_ops s loc pid gid cpv chunks in
   let sk := run (firstn k ops) s in
   (forall q, q <> target -> q <> tmp ->
      lookup sk q = lookup s q \/ (lookup s q = None /\ is_dir_opt (lookup sk q))) /\
   (lookup sk target = lookup s target \/
-   (exists i, lookup sk target = Some (new_node content gid i)) /\ lookup sk tmp = None /\ (length ops <= k)%nat).
+   (exists i, lookup sk target = Some (new_node (concat chunks) gid i)) /\ lookup sk tmp = None /\ (length ops <= k)%nat).
 Proof. exact store_frame_proof. Qed.
 Print Assumptions store_frame.
 
 (* readers of the entry being stored see the previous result or the complete new one *)
-Theorem store_atomic : forall lay s loc pid gid cpv content k,
+Theorem store_atomic : forall lay s loc pid gid cpv chunks k,
   cpv <> [] ->
-  let ops := store_ops s loc pid gid cpv content in
+  let ops := store_ops s loc pid gid cpv chunks in
   let sk := run (firstn k ops) s in
   read_entry lay sk loc cpv = read_entry lay s loc cpv \/
-  ((length ops <= k)%nat /\ read_entry lay sk loc cpv = parse lay content).
+  ((length ops <= k)%nat /\ read_entry lay sk loc cpv = parse lay (concat chunks)).
 Proof. exact store_atomic_proof. Qed.
 Print Assumptions store_atomic.
 
 (* readers of any other existing entry are unaffected *)
-Theorem store_others : forall lay s loc pid gid cpv content k cpv',
+Theorem store_others : forall lay s loc pid gid cpv chunks k cpv',
   cpv <> [] -> cpv' <> cpv -> target_path loc cpv' <> tmp_path loc pid cpv ->
   lookup s (target_path loc cpv') <> None ->
-  let sk := run (firstn k (store_ops s loc pid gid cpv content)) s in
+  let sk := run (firstn k (store_ops s loc pid gid cpv chunks)) s in
   read_entry lay sk loc cpv' = read_entry lay s loc cpv'.
 Proof. exact store_others_proof. Qed.
 Print Assumptions store_others.
 
 (* the listing (with the '.update.' filter) never reports a partial entry: every key listed at
    a crash point was listed before the store, or is the stored cpv with its complete new entry *)
-Theorem listing_no_partial : forall lay s loc pid gid cpv content k,
+Theorem listing_no_partial : forall lay s loc pid gid cpv chunks k,
   cpv <> [] ->
-  let sk := run (firstn k (store_ops s loc pid gid cpv content)) s in
-  listing_ok lay s sk loc cpv (parse lay content).
+  let sk := run (firstn k (store_ops s loc pid gid cpv chunks)) s in
+  listing_ok lay s sk loc cpv (parse lay (concat chunks)).
 Proof. exact listing_no_partial_proof. Qed.
 Print Assumptions listing_no_partial.
 
-Theorem listing_keeps_committed : forall s loc pid gid cpv content k key,
+Theorem listing_keeps_committed : forall s loc pid gid cpv chunks k key,
   cpv <> [] ->
-  let sk := run (firstn k (store_ops s loc pid gid cpv content)) s in
+  let sk := run (firstn k (store_ops s loc pid gid cpv chunks)) s in
   In key (keys s loc) -> In key (keys sk loc).
 Proof. exact listing_keeps_proof. Qed.
 Print Assumptions listing_keeps_committed.
